@@ -121,7 +121,12 @@ def _register_encode_glue():
             ctx.prove("post.one_unit_per_instruction_without_prefixes", z3.BoolVal(len(units) == 6 and all(u[0] != ext for u in units)))
             ctx.prove("post.free_variable_operand_is_index_after_the_cells", z3.BoolVal(units[4][1] == len(cellvars) + 0 and units[3][1] == 0))
             ctx.prove("post.line_of_every_unit_recorded", z3.BoolVal(lm.offset_to_line == {0: 3, 2: 3, 4: 4, 6: 4, 8: 5, 10: 5}))
-        harness("blocks.blocks_to_bytes.table_seeding[%s]" % kind, props=["C01", "C03", "C05", "C04"], functions=["code_data._blocks.blocks_to_bytes", "code_data._args.args_to_varnames"],
+            # an instruction with EXTENDED_ARG prefixes as the LAST instruction: every one of its code units, the opcode's included, has its line
+            wide = (Instruction(opn("hasconst"), Constant(1), line_number=7), Instruction("CALL_FUNCTION" if "CALL_FUNCTION" in T["opmap"] else opn("hasname"), 70000, line_number=9))
+            code3, lm3, _, _, _, _ = f((wide,), (), (), None)
+            ctx.prove("post.every_unit_of_a_prefixed_last_instruction_has_its_line(C10: table covers the whole code)",
+                      z3.BoolVal(len(code3) == 8 and lm3.offset_to_line == {0: 7, 2: 9, 4: 9, 6: 9}), detail=repr((len(code3), lm3.offset_to_line)))
+        harness("blocks.blocks_to_bytes.table_seeding[%s]" % kind, props=["C01", "C03", "C05", "C04", "C10"], functions=["code_data._blocks.blocks_to_bytes", "code_data._args.args_to_varnames"],
                 configs="all", engine="E2",
                 notes="bounded (one concrete six-instruction block per code kind): the encoder seeds co_varnames with the parameters in CPython's layout and pins the docstring - also an "
                       "empty one - at constant 0; free variables index after the cells; every unit gets its line")(h)
@@ -137,10 +142,10 @@ def _register_jump_graph():
             T = cfg.tables
             ops = {"jabs": T["hasjabs"][0], "jrel": T["hasjrel"][0]}
             nop = T["opmap"]["NOP"]
-            # offsets: i0 @0 jumps to @4 (i2); i1 @2 plain; i2 @4 plain; i3 @6 jumps to @0; i4 @8 plain
-            seq = [(ops[kinds[0]], 0, 1, 0, 2), (nop, 0, 1, 2, 4), (nop, 0, 1, 4, 6), (ops[kinds[1]], 0, 1, 6, 8), (nop, 0, 1, 8, 10)]
+            # offsets: i0 @0 jumps to @6 (i2); i1 @2 is a non-jump with one EXTENDED_ARG prefix (2 units); i2 @6 plain; i3 @8 jumps to @0; i4 @10 plain
+            seq = [(ops[kinds[0]], 0, 1, 0, 2), (nop, 300, 2, 2, 6), (nop, 0, 1, 6, 8), (ops[kinds[1]], 0, 1, 8, 10), (nop, 0, 1, 10, 12)]
             ns["_parse_bytes"] = lambda b: iter(seq)
-            tgt = {0: 4, 6: 0}
+            tgt = {0: 6, 8: 0}
 
             def to_arg(opcode, arg, next_offset, *tables):
                 off = next_offset - 2
@@ -148,9 +153,9 @@ def _register_jump_graph():
                     return Jump(tgt[off], opcode == ops["jrel"])
                 return NoArg(arg)
             ns["to_arg"] = to_arg
-            lm = L.LineMapping({o: 1 for o in range(0, 10, 2)}, {})
+            lm = L.LineMapping({o: 1 for o in range(0, 12, 2)}, {})
             blocks, additional = ns["bytes_to_blocks"]("CODE", lm, (), (), (), (), (), None, Args())
-            ctx.prove("post.blocks_are_the_jump_target_partition[{0,4} -> two blocks]", z3.BoolVal([len(b) for b in blocks] == [2, 3]), detail=repr([len(b) for b in blocks]))
+            ctx.prove("post.blocks_are_the_jump_target_partition[{0,6} -> two blocks]", z3.BoolVal([len(b) for b in blocks] == [2, 3]), detail=repr([len(b) for b in blocks]))
             ctx.prove("post.forward_jump_designates_the_block_that_starts_at_its_target", z3.BoolVal(len(blocks) == 2 and blocks[0][0].arg.target == 1))
             ctx.prove("post.jump_to_offset_0_designates_block_0", z3.BoolVal(len(blocks) == 2 and blocks[1][1].arg.target == 0))
             ctx.prove("post.every_jump_target_is_an_existing_block", z3.BoolVal(all(0 <= i.arg.target < len(blocks) for b in blocks for i in b if isinstance(i.arg, Jump))))
